@@ -173,15 +173,29 @@ def parser_rule_handlers(repo: Repo):
 
 
 def entry_rule_call(repo: Repo, doc_cls: str, par_attrs) -> Tuple[Optional[ast.Call], ast.FunctionDef]:
-    fn = repo.cls(doc_cls).methods.get("process")
+    """The parser rule call made by Documenter.process (directly or in a private helper it calls) and the function that
+    contains it."""
+    ci = repo.cls(doc_cls)
+    fn = ci.methods.get("process")
     if fn is None:
         raise AnalysisError("anchor vanished: Documenter.process")
     rule_names, _ = parser_rule_handlers(repo)
-    for c in calls_in(fn):
-        if isinstance(c.func, ast.Attribute) and c.func.attr in rule_names:
-            recv = c.func.value
-            if isinstance(recv, ast.Attribute) and recv.attr in par_attrs:
-                return c, fn
+    seen = set()
+    todo = [fn]
+    while todo:
+        f = todo.pop(0)
+        if f.name in seen:
+            continue
+        seen.add(f.name)
+        for c in calls_in(f):
+            if isinstance(c.func, ast.Attribute) and c.func.attr in rule_names:
+                recv = c.func.value
+                if isinstance(recv, ast.Attribute) and recv.attr in par_attrs:
+                    return c, f
+            if isinstance(c.func, ast.Attribute) and isinstance(c.func.value, ast.Name) and c.func.value.id == "self":
+                r = repo.find_method(doc_cls, c.func.attr)
+                if r is not None:
+                    todo.append(r[1])
     return None, fn
 
 
@@ -412,6 +426,32 @@ def run(rep: Report, repo: Repo, tier: str) -> None:
                           "leaves reST behind")
     rep.floor("C06-R5", 2, "output sinks in document_single_file")
 
+    # ---- R9: every normal completion of process() has parsed the file
+    rep.rule("C06-R9", "Documenter.process reaches its normal return only through the entry-rule parse: no early return, no "
+                       "branch that skips lexing/parsing")
+    top_proc = repo.cls(doc_cls).methods["process"]
+    parse_stmt_idx = None
+    for i, st in enumerate(top_proc.body):
+        found = any(c is entry_call for c in calls_in(st))
+        if not found and proc_fn is not top_proc:
+            # the parse happens in a helper: the statement that calls that helper
+            found = any(isinstance(c.func, ast.Attribute) and isinstance(c.func.value, ast.Name) and c.func.value.id == "self"
+                        and c.func.attr == proc_fn.name for c in calls_in(st))
+        if found and parse_stmt_idx is None:
+            parse_stmt_idx = i
+    if parse_stmt_idx is None:
+        raise AnalysisError("Documenter.process does not reach the entry rule call at its top level")
+    parse_st = top_proc.body[parse_stmt_idx]
+    rep.check(not isinstance(parse_st, (ast.If, ast.For, ast.While, ast.Try)) or isinstance(parse_st, ast.Try), "C06-R9",
+              f"{dmod}:{doc_cls}.process", "the parse is unconditional",
+              "the file is parsed only under a condition: on the other branch faults are not detected and a page is produced")
+    early = [n for st in top_proc.body[:parse_stmt_idx] for n in [st] + list(walk_no_nested(st)) if isinstance(n, ast.Return)]
+    rep.check(not early, "C06-R9", f"{dmod}:{doc_cls}.process", f"{len(early)} return statement(s) before the parse",
+              "process() can return a writer without having lexed and parsed the file (shortcut for 'nothing to document'): "
+              "faults in such files are not reported and a page is written",
+              witness="all include_undocumented_* off and a faulty file without doccomments")
+    rep.floor("C06-R9", 2, "parse reachability facts")
+
     # ---- R6: whole file
     rep.rule("C06-R6", "Documenter.process parses with the entry rule (rule 0, which ends in EOF)")
     called = entry_call.func.attr
@@ -422,17 +462,27 @@ def run(rep: Report, repo: Repo, tier: str) -> None:
     facts = atn_mod.parser_facts(repo)
     rep.check(facts["entry_ends_in_eof"], "C06-R6", "cminx.parser.CMakeParser:serializedATN", "entry rule ends in EOF",
               "the entry rule of the parser ATN does not require EOF")
-    # the tree that is walked is the one returned by the entry rule
+    # the tree that is walked is the one returned by the entry rule (possibly handed back by a private helper)
     walked_ok = False
-    for c in calls_in(proc_fn):
-        if call_name(c).endswith(".walk") and len(c.args) >= 2:
-            a = c.args[1]
-            if a is entry_call or any(x is entry_call for x in ast.walk(a)):
-                walked_ok = True
-            elif isinstance(a, ast.Name):
-                for st in proc_fn.body:
-                    if isinstance(st, ast.Assign) and st.value is entry_call and norm(st.targets[0]) == a.id:
-                        walked_ok = True
+    top_p = repo.cls(doc_cls).methods["process"]
+
+    def is_tree_expr(e, fn, depth=0):
+        if depth > 3:
+            return False
+        if e is entry_call or any(x is entry_call for x in ast.walk(e)):
+            return True
+        if isinstance(e, ast.Call) and isinstance(e.func, ast.Attribute) and isinstance(e.func.value, ast.Name) \
+                and e.func.value.id == "self" and proc_fn is not top_p and e.func.attr == proc_fn.name:
+            # helper must return the tree
+            rets = [n for n in walk_no_nested(proc_fn) if isinstance(n, ast.Return) and n.value is not None]
+            return bool(rets) and all(is_tree_expr(r.value, proc_fn, depth + 1) for r in rets)
+        if isinstance(e, ast.Name):
+            defs = [n.value for n in walk_no_nested(fn) if isinstance(n, ast.Assign) and any(norm(t) == e.id for t in n.targets)]
+            return bool(defs) and all(is_tree_expr(d, fn, depth + 1) for d in defs)
+        return False
+    for c in calls_in(top_p):
+        if call_name(c).endswith(".walk") and len(c.args) >= 2 and is_tree_expr(c.args[1], top_p):
+            walked_ok = True
     rep.check(walked_ok, "C06-R6", f"{dmod}:{doc_cls}.process", "walker.walk(listener, <entry rule result>)",
               "the walked tree is not the result of the entry rule call")
     rep.floor("C06-R6", 3, "entry-rule facts")
